@@ -26,7 +26,7 @@ FUZZ = os.path.join(ROOT, "fuzz")
 BIN = os.path.join(FUZZ, "target", "x86_64-unknown-linux-gnu", "release")
 WORK = os.path.join(FUZZ, "work")
 KIMPL = os.path.join(ROOT, "harness", "target", "release", "kimpl")
-TARGETS = {"req": 320, "resp": 320, "hdr": 220, "body": 260, "route": 120, "print": 160}   # -max_len
+TARGETS = {"req": 320, "resp": 320, "hdr": 220, "body": 260, "route": 200, "print": 160}   # -max_len
 NCPU = os.cpu_count() or 4
 
 
